@@ -90,8 +90,46 @@ def selfcheck_reference(ks: t.List[U.Kind]) -> int:
     return n
 
 
+# library member name -> RFC 4511 identifier, where the spelling is not a plain case conversion
+_ALIAS = {"STRONG_AUTH_REQUIRED": "strongerAuthRequired", "INVALID_DN_SYNTAX": "invalidDNSyntax", "NOT_ALLOWED_ON_RDN": "notAllowedOnRDN",
+          "AFFECTS_MULTIPLE_DSAS": "affectsMultipleDSAs", "BASE": "baseObject", "ONE_LEVEL": "singleLevel", "SUBTREE": "wholeSubtree",
+          "NEVER": "neverDerefAliases", "IN_SEARCHING": "derefInSearching", "FINDING_BASE_OBJ": "derefFindingBaseObj", "ALWAYS": "derefAlways"}  # fmt: skip
+
+
+def _rfc_name(member: str) -> str:
+    if member in _ALIAS:
+        return _ALIAS[member]
+    parts = member.lower().split("_")
+    return parts[0] + "".join(p.capitalize() for p in parts[1:])
+
+
+def named_values(ctx: evid.Ctx) -> None:
+    """A named enumeration member must go on the wire as the number RFC 4511 gives that name (a table the
+    library's own decoder shares with its encoder cannot vouch for itself)."""
+    import sansldap as L
+
+    res = lambda c: L.LDAPResult(c, "", "", None)  # noqa: E731
+    for enum_cls, table, mk, path in (
+        (L.LDAPResultCode, R.RESULT_CODES, lambda c: L.SearchResultDone(1, [], res(c)), ("protocolOp", 1, "resultCode")),
+        (L.SearchScope, R.SEARCH_SCOPE, lambda c: L.SearchRequest(1, [], "", c, L.DereferencingPolicy.NEVER, 0, 0, False, L.FilterPresent("a"), []), ("protocolOp", 1, "scope")),
+        (L.DereferencingPolicy, R.DEREF_ALIASES, lambda c: L.SearchRequest(1, [], "", L.SearchScope.BASE, c, 0, 0, False, L.FilterPresent("a"), []), ("protocolOp", 1, "derefAliases")),
+    ):
+        for name, member in enum_cls.__members__.items():
+            ctx.add("states")
+            ctx.add("transitions", 2)
+            rfc = _rfc_name(name)
+            if rfc not in table:
+                continue  # a name RFC 4511 does not define (an extension): nothing to compare with
+            v = R.decode_message(mk(member).pack(K.OPTS), strict=False)
+            for k in path:
+                v = v[k]
+            if v != table[rfc]:
+                ctx.violation(f"named-value-wrong:{enum_cls.__name__}.{name}", f"{enum_cls.__name__}.{name} is encoded as {v}; RFC 4511 defines {rfc} ({table[rfc]})", {"msg": A.src(mk(member))})
+
+
 def run(ctx: evid.Ctx) -> None:
     thorough = ctx.tier == "thorough"
+    named_values(ctx)
     d = 3 if thorough else 2
     ks = U.kinds(big=thorough, depth3=thorough)
     _STATE["kinds"] = ks
